@@ -35,6 +35,7 @@ type tplCase struct {
 	Hdef []string            `json:"hdef"`
 	Ldef map[string][]string `json:"ldef"`
 	Vdef map[string][]string `json:"vdef"`
+	Lbad []string            `json:"lbad"` // layouts with a file that does not parse
 	Reqs []tplReq            `json:"reqs"`
 	Want []map[string]string `json:"want"`
 }
@@ -63,6 +64,9 @@ func writeTemplateFiles(c *tplCase) filesystem.Filespace {
 		if len(d) > 0 {
 			fs.WriteFile("views/"+v+"/main.tmpl", []byte(defsFile("V", v, d)), filesystem.DefaultUnixFileMode)
 		}
+	}
+	for _, l := range c.Lbad {
+		fs.WriteFile("layouts/"+l+"/zz_broken.tmpl", []byte("{{define \"N1\"}}never closed"), filesystem.DefaultUnixFileMode)
 	}
 	return fs
 }
@@ -194,6 +198,17 @@ func cmdTplCases(args []string) error {
 					}
 				}
 			}()
+			if c.Want[i]["N1"] == "ERR" {
+				// the layout does not load: the request must fail, the first time and every time
+				if rerr == nil {
+					fail("load-error-not-reported", inner, fmt.Sprintf("request %d %+v went through a layout whose file does not parse and returned no error", i, rq))
+					ok = false
+					break
+				}
+				wantErr := c.Want[i]
+				handed = append(handed, handedTpl{inspect: func() map[string]string { return wantErr }})
+				continue
+			}
 			if rerr != nil {
 				fail("request-error", inner, fmt.Sprintf("request %d %+v failed: %v", i, rq, rerr))
 				ok = false
